@@ -97,13 +97,25 @@ class FakeTmp:
 class SimFileNoClose:
     """In-memory file with an optional file descriptor number (for the sendfile path)."""
 
-    def __init__(self, content, offset=0, with_fileno=True, fd=None):
+    BUFSIZE = 8192
+
+    def __init__(self, content, offset=0, with_fileno=True, fd=None, sniff=0):
+        """`sniff` > 0 models what open(path, 'rb') gives an application that looks at the first bytes and rewinds: a BUFFERED reader.
+        Its logical position (tell(), where read() continues) and the position of the descriptor underneath (what lseek(fd, 0, SEEK_CUR)
+        reports and os.sendfile would start from) differ as soon as something was read: the descriptor runs ahead by the read-ahead."""
         self.content = content
-        self.pos = offset
         self.fd = fd
         self.with_fileno = with_fileno
         self.closed = 0
         self.reads = 0
+        self.buffered = bool(sniff)
+        self.pos = 0
+        self.raw = 0                 # position of the descriptor
+        self.bstart = 0              # the read-ahead buffer covers content[bstart:raw]
+        if sniff:
+            self.read(sniff)
+            self.reads = 0
+        self.seek(offset)
 
     def read(self, n=-1):
         self.reads += 1
@@ -111,8 +123,30 @@ class SimFileNoClose:
             out = self.content[self.pos:]
         else:
             out = self.content[self.pos:self.pos + n]
+        if self.buffered:
+            need = self.pos + len(out)
+            if need > self.raw or not out:
+                if self.pos >= self.raw:
+                    self.bstart = self.pos
+                self.raw = min(len(self.content), max(self.raw, self.pos + max(len(out), self.BUFSIZE)))
         self.pos += len(out)
+        if not self.buffered:
+            self.raw = self.pos
         return out
+
+    def seek(self, pos, whence=0):
+        if whence == 1:
+            pos += self.pos
+        elif whence == 2:
+            pos += len(self.content)
+        if self.buffered and self.bstart <= pos <= self.raw and self.raw > self.bstart:
+            self.pos = pos           # inside the read-ahead: the descriptor does not move
+        else:
+            self.pos = self.raw = self.bstart = pos
+        return self.pos
+
+    def tell(self):
+        return self.pos
 
     def fileno(self):
         if not self.with_fileno:
@@ -150,13 +184,16 @@ class FakeOS:
         if "lseek" in self.fail and how == self.SEEK_CUR:
             self.fired.append("lseek")
             raise OSError(self.fail["lseek"], "injected lseek failure")
+        # the descriptor's own position (identical to the object's for an unbuffered file)
         if how == self.SEEK_CUR:
-            f.pos += pos
+            f.raw += pos
         elif how == self.SEEK_SET:
-            f.pos = pos
+            f.raw = pos
         else:
-            f.pos = len(f.content) + pos
-        return f.pos
+            f.raw = len(f.content) + pos
+        if not f.buffered or pos or how != self.SEEK_CUR:
+            f.pos = f.bstart = f.raw
+        return f.raw
 
     def fstat(self, fd):
         f = self.files.get(fd)
@@ -489,7 +526,7 @@ def make_app(programs, state):
             fspec = prog["file"]
             fd = 1000 + len(FAKE_OS.files)
             fcls = SimFile if fspec.get("has_close", True) else SimFileNoClose
-            f = fcls(fspec["content"].encode("latin-1"), fspec.get("offset", 0), fspec.get("fileno", True), fd)
+            f = fcls(fspec["content"].encode("latin-1"), fspec.get("offset", 0), fspec.get("fileno", True), fd, fspec.get("sniff", 0))
             if fspec.get("fileno", True):
                 FAKE_OS.files[fd] = f
             state.files.append(f)
